@@ -6,6 +6,16 @@ ROOT = os.path.dirname(os.path.dirname(os.path.abspath(__file__)))
 TECH = "property-based testing (pgregory.net/rapid)"
 
 CLAIMED = {
+ "C01": dict(
+  text="Two layers. Pure: keeper.GetInputPrice/GetOutputPrice against a math/big reference over operands up to 2^128 and fees from 10^-18 to 1-10^-18, with a constructive generator for the exact-division residue: the fee-inclusive constant-product rule holds for the returned amount and fails for one unit more (input), and the price lies in [p_min, p_min+1] (output); a panic is only accepted as the 256-bit overflow refusal when a product really exceeds the range. Histories: add (incl. pool creation) / remove / one-sided add and remove on either side / swaps (sell, buy, single and double hop) / donations to escrow / parameter changes / blocks by several accounts; after every successful message S'T'L^2 >= STL'^2 for every pool, untouched pools bit-identical, every swap leg read off the reserve deltas satisfies the rule and optimality against the pre-state reserves and the fee in force.",
+  note="Bounded random search (<=3 pools, reserves and shares <=2^128, <=40-80 ops); SDK/bank/rapid trusted.",
+  technique=TECH + ": pure function vs big-integer reference (random + constructive boundary generator) and state machine with per-step invariant, shrinking to JSON replay",
+  ref="DESIGN.md §4 C01"),
+ "C02": dict(
+  text="The C01 history machine with the balance-sheet oracle: the whole bank sheet (every account, every supply) is diffed around each message and must equal exactly the moves the property allows - sender debited the sold coin only, recipient credited the bought coin only, intermediate standard coin netting to zero for both on routed swaps, pools changing by their legs, bounds and deadlines respected, liquidity tokens minted/burned only against deposits/withdrawals, pool creation fee split into tax and burn, responses equal to observed deltas; rejected messages are re-run on a branch with only the deadline moved or the bounds loosened to detect rejections the property does not allow.",
+  note="Same bounds as C01; recipients include other users, poor accounts, blocked addresses, pool escrows and the module account; SDK/bank/rapid trusted.",
+  technique=TECH + ": state machine with exact balance-sheet delta oracle and branch probes, shrinking to JSON replay",
+  ref="DESIGN.md §4 C02"),
  "C03": dict(
   text="rapid state machine over create (plain, multi-coin, incoming/outgoing cross-chain, duplicates, every timestamp/time-lock boundary) / claim (right, foreign, random, malformed secret; any sender) / blocks biased to expiry-1, expiry, expiry+1; an independent model recomputes ids and hash locks and predicts claim acceptance exactly; after every message and block the exact balance-sheet delta, the refund-event id set, contract terms and state transitions are compared, and a rejected message must leave balances and the htlc store image untouched.",
   note="Bounded random search (<=8-12 contracts, <=130 blocks, 6 users, two cross-chain assets); asset removal/limit lowering while transfers are open is a governance precondition kept behind a switch (DESIGN §5 F11); SDK/bank/rapid trusted.",
@@ -36,11 +46,26 @@ CLAIMED = {
   note="Bounded random search (<=60 blocks, 4 funded users, default parameters except what histories change); queue membership after import is not observable through genesis or queries and is not asserted; SDK/IAVL/rapid trusted.",
   technique=TECH + ": state machine over blocks, round-trip (export -> import -> export) and differential query oracle, shrinking to JSON replay",
   ref="DESIGN.md §4 C12"),
+ "C14": dict(
+  text="rapid state machine over issue-class (all four flag combinations) / mint / edit / transfer (all-sentinel, one field changed, mixed; to self) / burn / class hand-over by owners, creators and strangers over regular and odd ids; a reference map predicts acceptance exactly for every clause (owner-only edit/transfer/burn, mint restriction, update restriction on edit and on transfer-with-changes, creator-only hand-over, no id reuse while a token exists) and after every message every query (Denom, Denoms, Collection, NFT, Supply per class and per owner with their sum, NFTsOfOwner) and the supply invariant are compared with the model.",
+  note="Bounded random search (14 class ids, 9 token ids, 4 senders, <=40-80 ops); input-syntax rules follow the code where it is laxer (counted); SDK/rapid trusted.",
+  technique=TECH + ": state machine vs reference map with exact acceptance prediction, shrinking to JSON replay",
+  ref="DESIGN.md §4 C14"),
+ "C15": dict(
+  text="rapid state machine over issue-class / mint new / mint existing / edit / transfer (incl. to self) / burn / class hand-over with amounts over the whole uint64 range drawn by shape (tiny, random bit length, 2^63 and 2^64-1 boundaries, held-1/held/held+1, room-1/room/room+1); the ledger is kept in big.Int so a wrap is visible; acceptance is predicted exactly, generated class and token ids must be pairwise distinct, and after every message Denoms/MTs/Balances (all pages), MTSupply, the exported balances summed per token, and SupplyInvariant are compared with the ledger.",
+  note="Bounded random search (<=40-80 ops, 6 accounts); SDK/rapid trusted.",
+  technique=TECH + ": state machine vs big.Int reference ledger, shrinking to JSON replay",
+  ref="DESIGN.md §4 C15"),
  "C17": dict(
   text="rapid state machine on top of the service flow: create/start/pause/edit feeds by creator and strangers (latest-history shrinking and growing, thresholds, provider sets), providers answer with decimal strings of either sign (0-10 fractional digits, 1e-8..1e15), error results or not at all, a poor creator whose funds run out, blocks. Every completed batch (complete_batch event) is judged with the outputs the harness itself submitted and the threshold in force when the batch was issued: exactly one new value iff the threshold was met, equal to the exact big.Rat aggregate within 0.5e-8 + (n+2)*2^-52*max|x|, stamped with the block time; after every step values are newest-first, never more than latest-history, otherwise unchanged; the feed state index mirrors the request context; strangers are rejected without effect.",
   note="Bounded random search (<=4 feeds, 3 providers, <=120 steps); answers lacking the JSON field are outside the numeric clause; SDK/bank/rapid trusted.",
   technique=TECH + ": state machine vs exact-rational reference model, shrinking to JSON replay",
   ref="DESIGN.md §4 C17"),
+ "C18": dict(
+  text="History machine: plain and oracle-seeded requests by four requesters (intervals 0..20, joining pending due heights, and huge ones that must stay queued), generated app hashes and block times per block, a provider answering with a valid seed / schema-violating body / error result / not at all; the model knows request ids as sha256(height||consumer), requires the queue to equal the pending set, fulfilment exactly in the begin-block after h+n with exactly one event (oracle: in the block the valid seed arrives, never after a failed call), the stored string to match ^0\\.\\d{20}$ and to equal an independent re-implementation of the mixing, numbers to read back unchanged for ever, and (metamorphic) due numbers not to change when an unrelated request with other tx bytes is added on a branch. Pure: MakePRNG(...).GetRand() against the re-implementation over hash, address and seed lengths and timestamps up to MaxInt64.",
+  note="Bounded random search (<=60-100 steps, service MaxRequestTimeout lowered to 3 so time-outs are reachable); preconditions of the service call follow the code (counted); SDK/rapid trusted.",
+  technique=TECH + ": state machine vs reference model + independent re-implementation of the PRNG (differential) + metamorphic branch, shrinking to JSON replay",
+  ref="DESIGN.md §4 C18"),
  "C19": dict(
   text="Generated histories of record creations (byte-identical duplicates within one tx, one block and across blocks), blocks and other-module messages; after every step every id ever returned is read back and compared with what was submitted, ids are checked pairwise distinct and the raw record store is checked to only grow.",
   note="Bounded random search (history length, 3 creators, small content alphabet); SDK/bank/store and rapid trusted; no proof of absence.",
